@@ -98,16 +98,18 @@ def prove(hyps, goal, timeout_ms=20000, stats=None):
     return check_sat(list(hyps) + [z3.Not(goal)], timeout_ms, stats)
 
 
-def prove_split(hyps, goal, budget_ms=30000, stats=None, max_cubes=8192, per_ms=5000):
+def prove_split(hyps, goal, budget_ms=30000, stats=None, max_cubes=2048, per_ms=5000):
     """Last rung of the proof ladder: the NEGATED goal is put into cubes (z3 tactics simplify, nnf, split-clause -- the
     disjunction of the cubes is equivalent to it) and every cube is refuted together with the hypotheses by nlsat.
     unsat: every cube refuted (a proof); sat: a cube has a model (a model of the original query); else unknown."""
     t0 = time.time()
     verdict, model = "unknown", None
     try:
+        if len(z3.Not(goal).sexpr()) > 60000:  # very large goals: the cube expansion itself can exhaust memory
+            raise z3.Z3Exception("goal too large for cube splitting")
         g = z3.Goal()
         g.add(z3.Not(goal))
-        subs = z3.Then("simplify", "nnf", z3.Repeat(z3.OrElse("split-clause", "skip"), 64))(g)
+        subs = z3.Then("simplify", "nnf", z3.Repeat(z3.OrElse("split-clause", "skip"), 11))(g)
         if 0 < len(subs) <= max_cubes:
             from .explore import guarded_check
             verdict = "unsat"
